@@ -83,6 +83,18 @@ CLAIMS = {
         "note": "Laws, not a closed form (none exists for irregular cadences). Trusted: the virtual clock shim. The monotone-decay law is a recorded known finding (rises at the start of some stalls by design); the other stall laws are still evaluated in those histories.",
         "technique": "runtime monitoring: algebraic/metamorphic trace laws over getter values on a virtual clock",
     },
+    "C11": {
+        "text": "Exploration: a bar whose template holds every documented non-bar key (26), a custom ProgressTracker key and an unknown key on separate lines goes through 1-25 updates (positions incl. u64 extremes and pos > len, known/zero/unknown length, texts, ticks, reset, abandon; virtual time from 1 ms to days between operations) and is drawn once on a spy terminal; each raw line is compared with the getter read at the same frozen virtual instant passed through the public formatter (percent: either neighbour within f32 noise; spinner: tick string at the model's tick count, final string once finished); the custom tracker's tick/reset/write calls are logged and compared with the bar's state.",
+        "design_ref": "DESIGN.md §4 C11",
+        "note": "The formatters themselves are C15's business; here they are the yardstick. {bar}/{wide_bar} are C13's. Tick counts beyond a few dozen are not reachable through the public API.",
+        "technique": "runtime monitoring: per-key differential oracle (rendered text vs getters at a frozen virtual instant)",
+    },
+    "C16": {
+        "text": "Exploration: builder calls (with_tab_width/with_style/with_message/with_prefix) in random order, then 1-6 of set_tab_width/set_style/set_message/set_prefix and a finishing message (explicit or through finish-on-drop behaviour), tab widths {0,1,2,8,13}, texts with up to 10 tabs, tabs in template literals and custom-key output, standalone and inside a MultiProgress; after every operation every string handed to write_str/write_line is scanned for TAB bytes, the forced frame must equal the model with every tab replaced by current-tab-width spaces, and message()/prefix() must return the expanded text.",
+        "design_ref": "DESIGN.md §4 C16",
+        "note": "println texts contain no tabs here: the statement is about bar lines.",
+        "technique": "runtime monitoring: byte scan of the terminal call log + model comparison after every operation",
+    },
 }
 
 ALL = [f"C{n:02d}" for n in range(1, 20)]
